@@ -177,7 +177,21 @@ def check(run):
     ok = len(wcalls) == 1 and path(wcalls[0].get("recv")) == ("this", "m_file_preamble")
     run.ob("R09.5", "write_file_header:preamble", ok, wh, wh["line"], "header serialises m_file_preamble exactly once")
     ok = len(rcalls) == 1 and path(rcalls[0].get("recv")) == ("this", "m_file_preamble")
-    run.ob("R09.5", "read_file_header:preamble", ok, rh, rh["line"], "header parses into m_file_preamble exactly once")
+    why = "header parses into m_file_preamble exactly once"
+    if len(rcalls) == 1 and not ok:
+        # the other shape: parsed into a local FilePreamble that is then committed to the member unconditionally
+        rp = path(rcalls[0].get("recv"))
+        env_h = Env(rh["body"])
+        commits = [(g, rhs, node) for st, g, loops in ir.guarded_statements(rh["body"], env_h) if st.get("k") not in ("IfCond", "LoopHead", "SwitchHead")
+                   for lp, rhs, node in consumption.assignment_targets([st]) if lp == ("this", "m_file_preamble")]
+        g_read = [g for st, g, loops in ir.guarded_statements(rh["body"], env_h) if st.get("k") not in ("IfCond", "LoopHead", "SwitchHead")
+                  and any(c is rcalls[0] for c in ir.calls_in(st))]
+        # "unconditionally": on exactly the paths on which the preamble was parsed (the checks before it leave by throw)
+        if rp and len(rp) == 1 and rp[0].startswith("l:") and len(commits) == 1 and g_read and commits[0][0] == g_read[0] and \
+                path(commits[0][1]) == rp and commits[0][2].get("l", 0) >= rcalls[0].get("l", 0):
+            ok, why = True, "header parses into a local preamble exactly once and commits it to m_file_preamble unconditionally"
+    run.ob("R09.5", "read_file_header:preamble", ok, rh, rh["line"], why if ok else
+           "the file preamble is not parsed exactly once into m_file_preamble (directly, or through a local that is committed unconditionally)")
     # reader sequence: array start, text, preamble, array start
     seq = []
     for c in ir.calls_in(rh["body"]):
